@@ -198,7 +198,7 @@ CLAIMED = {
               "four-moment residual < atol and each of a1,b1,a2,b2 is reproduced within atol; any two multiplier vectors that "
               "meet the stopping rule (Newton, scipy) give moments within 2 atol of each other; every entry of mem2_jacobian "
               "equals the covariance sum(w T_m T_n) - sum(w T_m) sum(w T_n) under w = D*delta (so the mirrored lower triangle "
-              "is exact and the matrix symmetric) and is the derivative (HasDerivAt) of moment_constraints m with respect to "
+              "is exact and the matrix symmetric), is positive semidefinite (x^T J x is the variance of x.T under w) and is the derivative (HasDerivAt) of moment_constraints m with respect to "
               "multiplier n, the min-shift notwithstanding; the first guess of rotated moments is the rotated first guess, the "
               "exponent lambda.T(theta) of rotated multipliers is the exponent at theta - phi, so for any multipliers the MEM2 "
               "distribution rotates by k bins with them on every uniform grid, and the approximate variant as a whole rotates "
